@@ -1,7 +1,7 @@
 (** Lemmas about Model/RouterBfd.v: the fast path depends on the BFD sessions
     only through the up flag of the egress interface, consulted at one point. *)
 From Coq Require Import List NArith Bool Lia.
-From Scion Require Import Lib.Check Model.BFD Model.Router Model.RouterBfd Proofs.BFD Proofs.Router.
+From Scion Require Import Lib.Check Model.BFD Model.Router Model.RouterOHP Model.RouterBfd Proofs.BFD Proofs.Router.
 Import ListNotations.
 Import Scion.Model.Router.Router.
 Import Scion.Model.RouterBfd.RouterBfd.
@@ -434,18 +434,89 @@ Proof.
   - rewrite N.eqb_refl, pkt_eqb_refl. destruct q; cbn; rewrite ?N.eqb_refl; reflexivity.
 Qed.
 
-(** the oracle part of [hist_check] is true on the model's own observations, for every input *)
-Lemma hist_oracle_model c macs pkts evs : forall ls,
+(** * One-hop packets: no dependence on the sessions at all *)
+Lemma nbr_of_cfg_at c ls id : RouterOHP.nbr_of (cfg_at c ls) id = RouterOHP.nbr_of c id.
+Proof. unfold RouterOHP.nbr_of. rewrite get_if_cfg_at. destruct (get_if c id); reflexivity. Qed.
+
+Lemma process_ohp_cfg_at macq c ls ing p :
+  process_ohp_at macq c ls ing p = RouterOHP.process_ohp macq c ing p.
+Proof.
+  unfold process_ohp_at, RouterOHP.process_ohp.
+  destruct (RouterOHP.ohp_shape p) as [[[i h1] h2]|]; [|reflexivity].
+  destruct (negb (i_consdir i)); [reflexivity|].
+  destruct (negb (p_pay_len p =? p_pay_actual p)); [reflexivity|].
+  destruct (from0 ing).
+  - unfold RouterOHP.ohp_out. cbn [cfg_at c_ia]. rewrite nbr_of_cfg_at, get_if_cfg_at.
+    destruct (get_if c (h_eg h1)); reflexivity.
+  - unfold RouterOHP.ohp_in. cbn [cfg_at c_ia]. rewrite nbr_of_cfg_at. reflexivity.
+Qed.
+
+Lemma run_history2_nth macq c pre : forall ls ing d post,
+  nth_error (run_history2 macq c ls (pre ++ Ev2Data ing d :: post)) (count_data2 pre) =
+  Some (process_any macq c (links_after2 ls pre) ing d).
+Proof.
+  induction pre as [|e t IH]; intros ls ing d post; [reflexivity|].
+  destruct e as [l o | ing' d']; cbn [app run_history2 count_data2 nth_error]; apply IH.
+Qed.
+
+Lemma c15_ok_reply_none c ls ing allup impl fwd reply :
+  c15_ok c ls ing allup impl fwd reply = true -> c15_ok c ls ing allup impl fwd None = true.
+Proof.
+  unfold c15_ok. intros H. apply andb_true_iff in H as [A B]. rewrite A. cbn [andb].
+  destruct allup as [| | |e out [d|]| | |]; try exact B.
+  destruct (iface_up ls (iface_of c e)); [exact B|].
+  destruct impl as [| | |e' o' d'|q e' o'| |]; try exact B.
+  destruct q as [ty code ptr| |]; try exact B.
+  apply andb_true_iff in B as [B _]. rewrite B. reflexivity.
+Qed.
+
+Definition no_hohp (evs : list hev) : bool := forallb (fun e => negb (is_hohp e)) evs.
+
+(** the oracle part of [hist_check] is true on the model's own observations for every history
+    without one-hop data packets (the known-finding class) *)
+Lemma hist_oracle_model_except_ohp c macs pkts evs : forall ls,
+  no_hohp evs = true ->
   snd (hist_check c macs pkts ls (with_model_obs c macs pkts ls evs)) = true.
 Proof.
-  induction evs as [|e t IH]; intros ls; [reflexivity|].
-  destruct e as [l o up | now ing k impl fwd reply]; cbn [with_model_obs].
+  unfold no_hohp.
+  induction evs as [|e t IH]; intros ls NH; [reflexivity|].
+  cbn [forallb] in NH. apply andb_true_iff in NH as [NE NH]. specialize (IH).
+  destruct e as [l o up | now ing k impl fwd reply | ing k impl fwd | now ing k impl rl up];
+    cbn [with_model_obs]; try discriminate NE.
   - destruct (op_of o) as [op|] eqn:O; cbn [hist_check hev_step]; rewrite O.
-    + specialize (IH (step_links ls l op)).
+    + specialize (IH (step_links ls l op) NH).
       destruct (hist_check c macs pkts (step_links ls l op) _) as [a' o']. cbn in *. exact IH.
-    + specialize (IH ls). destruct (hist_check c macs pkts ls _) as [a' o']. cbn in *. exact IH.
+    + specialize (IH ls NH). destruct (hist_check c macs pkts ls _) as [a' o']. cbn in *. exact IH.
   - destruct (nthN pkts k) as [p|] eqn:K; cbn [hist_check hev_step]; rewrite K.
-    + specialize (IH ls). destruct (hist_check c macs pkts ls _) as [a' o']. cbn [snd] in *.
+    + specialize (IH ls NH). destruct (hist_check c macs pkts ls _) as [a' o']. cbn [snd] in *.
       rewrite IH, andb_true_r. apply c15_ok_model.
-    + specialize (IH ls). destruct (hist_check c macs pkts ls _) as [a' o']. cbn in *. exact IH.
+    + specialize (IH ls NH). destruct (hist_check c macs pkts ls _) as [a' o']. cbn in *. exact IH.
+  - destruct (nthN pkts k) as [p|] eqn:K; cbn [hist_check hev_step]; rewrite K.
+    + specialize (IH ls NH). destruct (hist_check c macs pkts ls _) as [a' o']. cbn [snd] in *.
+      rewrite IH, andb_true_r. eapply c15_ok_reply_none. apply c15_ok_model.
+    + specialize (IH ls NH). destruct (hist_check c macs pkts ls _) as [a' o']. cbn in *. exact IH.
+Qed.
+
+(** * The two main facts at the level of one processed SCION-path packet *)
+Lemma process_at_forward_up macq c ls now ing p e out :
+  process_at macq c ls now ing p = Forward e out None ->
+  exists f, get_if c e = Some f /\ e <> 0 /\ link_up ls (if_link f) = true.
+Proof.
+  intros H. rewrite process_at_char in H.
+  destruct (up_check_state macq c now ing p) as [s|] eqn:U.
+  - pose proof (up_check_state_facts _ _ _ _ _ _ U) as F.
+    destruct (iface_up ls (egress_if c s)) eqn:UP; [|discriminate].
+    apply finish_forward in H as [-> _]. exists (egress_if c s).
+    split; [apply (uf_if _ _ _ F)|]. split; [apply (uf_nz _ _ _ F)|].
+    now rewrite <- (iface_up_at_check _ _ _ _ F).
+  - apply no_up_check_forward in H as (s & X & _). congruence.
+Qed.
+
+Lemma process_at_down macq c ls now ing p s :
+  up_check_state macq c now ing p = Some s ->
+  link_up ls (if_link (egress_if c s)) = false ->
+  process_at macq c ls now ing p = down_result c s.
+Proof.
+  intros U D. pose proof (up_check_state_facts _ _ _ _ _ _ U) as F.
+  rewrite process_at_char, U, (iface_up_at_check _ _ _ _ F), D. reflexivity.
 Qed.
